@@ -20,19 +20,36 @@ PROP = "C01"
 LOUD = {"THROW", "FAILURE", "NULLDEREF"}
 
 
-def veq(a, b) -> bool:
+def veq(a, b, tol=0.0) -> bool:
     if isinstance(a, list) or isinstance(b, list):
         if not (isinstance(a, list) and isinstance(b, list)) or len(a) != len(b):
             return False
-        return all(veq(x, y) for x, y in zip(a, b))
+        return all(veq(x, y, tol) for x, y in zip(a, b))
     try:
-        return float(a) == float(b)
+        fa, fb = float(a), float(b)
     except (TypeError, ValueError):
         return False
+    if fa == fb:
+        return True
+    return tol > 0 and abs(fa - fb) <= tol * max(abs(fa), abs(fb))
 
 
-def rows_equal(exp_rows, obs_rows) -> bool:
-    return veq([list(r) for r in exp_rows], [list(r) for r in obs_rows])
+def _out_of_range(v) -> bool:
+    if isinstance(v, (list, tuple)):
+        return any(_out_of_range(x) for x in v)
+    if isinstance(v, bool):
+        return False
+    if isinstance(v, int):
+        return abs(v) > 2 ** 31 - 1
+    if isinstance(v, float):
+        return v != v or abs(v) > 1e300
+    if isinstance(v, complex):
+        return True
+    return False
+
+
+def rows_equal(exp_rows, obs_rows, tol=0.0) -> bool:
+    return veq([list(r) for r in exp_rows], [list(r) for r in obs_rows], tol)
 
 
 def _split_inner(col):
@@ -84,12 +101,14 @@ ALT_SEMANTICS = [
 ]
 
 
-def classify_event(text, ev, er, extra_env=None):
+def classify_event(text, ev, er, extra_env=None, tol=0.0):
     """Compare one (query, event) execution with the reference.  Returns None if it agrees / is not defined,
     ("skip", why) if the reference does not define it, or a mismatch dict."""
     exp, _ = evaluate_stable(text, ev, extra_env=extra_env)
     if exp[0] in ("unsupported", "ambiguous"):
         return ("skip", exp[0])
+    if exp[0] == "rows" and _out_of_range(exp[1]):
+        return ("skip", "out-of-range")    # beyond exactly representable integers / finite doubles: outside the statement
     obs_rows = None
     if er.end == "ok":
         try:
@@ -97,7 +116,7 @@ def classify_event(text, ev, er, extra_env=None):
         except Exception as e:  # unparsable output is a harness/format problem worth seeing
             return {"symptom": "unparsable-output", "expected": exp, "observed_end": er.end, "observed": str(er.rows)[:200], "explained_by": None}
     if exp[0] == "rows":
-        if er.end == "ok" and rows_equal(exp[1], obs_rows):
+        if er.end == "ok" and rows_equal(exp[1], obs_rows, tol):
             return None
         symptom = "value-mismatch" if er.end == "ok" else "spurious-fault"
     else:
